@@ -89,6 +89,7 @@ type bigV struct {
 	Lin  *Term  // exact value as a linear term (small values)
 	Pow  *Term  // 2^Pow
 	Mask *MaskV // N ones starting at Lo
+	NegP *Term  // -(2^NegP): what -1 << n is
 	Why  string // why the value is unknown
 }
 
@@ -1556,6 +1557,10 @@ func (bi *bvInterp) bigCall(p *bvPath, x *ast.CallExpr, callee *types.Func, recv
 			return unknown(src.Why)
 		case src.Lin != nil && src.Lin.IsConst() && src.Lin.C == 1:
 			return set(bigV{Pow: kl})
+		case src.Lin != nil && src.Lin.IsConst() && src.Lin.C == -1:
+			return set(bigV{NegP: kl})
+		case src.NegP != nil:
+			return set(bigV{NegP: src.NegP.Add(kl)})
 		case src.Lin != nil && src.Lin.IsZero():
 			return set(bigV{Lin: Const(0)})
 		case src.Pow != nil:
@@ -1573,6 +1578,21 @@ func (bi *bvInterp) bigCall(p *bvPath, x *ast.CallExpr, callee *types.Func, recv
 			return set(bigV{Lin: a.Big.Lin.Sub(b.Big.Lin)})
 		}
 		return unknown("big subtraction outside the closed forms (2^n - 1)")
+	case "Not":
+		// ^x = -x - 1: ^(-(2^n)) = 2^n - 1 (n ones), ^(2^n - 1) = -(2^n)
+		if a := arg(0); a.Big != nil {
+			switch {
+			case a.Big.Why != "":
+				return unknown(a.Big.Why)
+			case a.Big.NegP != nil:
+				return set(bigV{Mask: &MaskV{Lo: Const(0), N: a.Big.NegP}})
+			case a.Big.Mask != nil && a.Big.Mask.Lo.IsZero():
+				return set(bigV{NegP: a.Big.Mask.N})
+			case a.Big.Lin != nil:
+				return set(bigV{Lin: a.Big.Lin.Scale(-1).AddC(-1)})
+			}
+			return unknown("big Not outside the closed forms")
+		}
 	case "Set":
 		if a := arg(0); a.Big != nil {
 			return set(*a.Big)
